@@ -195,7 +195,9 @@ func FuzzC19(f *testing.F) {
 		f.Add([]byte(s))
 	}
 	f.Fuzz(func(t *testing.T, b []byte) {
-		if err := ev.Guard(func() error { return oracleC19(c19Case{B: b}) }); err != nil {
+		c := c19Case{B: b}
+		if err := ev.Guard(func() error { return oracleC19(c) }); err != nil {
+			ev.FuzzFail("C19", "split", c, err)
 			t.Fatal(err)
 		}
 	})
